@@ -2466,12 +2466,15 @@ impl XmlElement {
     fn find_nameapce_uri(&self, prefix: &str) -> error::Result<Option<NamespaceUri>> {
         for namespace in self.namespace_attributes().iter() {
             if prefix == namespace.borrow().local_name() {
-                return Ok(Some(NamespaceUri::try_from(&namespace)?));
+                // a declaration with an empty value un-declares
+                let uri = NamespaceUri::try_from(&namespace)?;
+                return Ok(if uri.is_empty() { None } else { Some(uri) });
             }
         }
 
         for namespace in self.in_scope_namespace()?.iter() {
-            if prefix == namespace.borrow().prefix().unwrap_or_default() {
+            // the default namespace is asked for as "xmlns" (see namespace_name)
+            if prefix == namespace.borrow().prefix().unwrap_or("xmlns") {
                 return Ok(Some(NamespaceUri::from(&namespace)));
             }
         }
